@@ -215,3 +215,434 @@ def _balanced(s):
         if d < 0:
             return False
     return d == 0
+
+
+# ---------------------------------------------------------------------------------------------------------
+# generator
+
+FIXED_SEEDS = [0, 1, 42, 1023, 1024]
+MODES = ["off", "subsample", "bootstrap", "wei_loss_bootstrap", "wei_grad_bootstrap"]
+
+
+def make_samples(rng, n, lo=0, hi=None):
+    """n distinct, non-contiguous sample indices; mostly increasing (as arange-like inputs), sometimes in arbitrary order"""
+    if hi is not None:  # distinct values inside [lo, hi)
+        vals = sorted(rng.shuffle(range(lo, hi))[:n])
+    else:
+        v = lo + rng.range(0, 50)
+        vals = []
+        for _ in range(n):
+            vals.append(v)
+            v += rng.range(1, 4) if rng.chance(0.8) else rng.range(5, 1000)
+    if rng.chance(0.3):
+        vals = rng.shuffle(vals)
+    return vals
+
+
+def kfold_op(samples, folds, seed):
+    return f"split kfold {lst(samples)} {folds} {seed}"
+
+
+def random_op(samples, folds, seed, tp):
+    return f"split random {lst(samples)} {folds} {seed} {tp}"
+
+
+def weights_with_zeros(rng, n):
+    while True:
+        w = [0.0 if rng.chance(0.4) else rng.choice([1.0, 0.5, 2.0, 1e-300, 1e300, rng.uniform(0.0, 10.0)]) for _ in range(n)]
+        if max(w) > 0.0:
+            # keep the sum finite
+            if sum(1 for x in w if x == 1e300) > 1:
+                continue
+            return w
+
+
+def gboost_op(rng, mode, n, ratio, calls):
+    total = n + rng.range(0, 6)
+    gdim = rng.range(1, 3) if mode == "wei_grad_bootstrap" else 1
+    samples = make_samples(rng, n, 0, total)
+    values = [0.0] * (total * gdim)
+    per = weights_with_zeros(rng, total)
+    # make sure at least one *selected* sample has a positive weight
+    if all(per[s] == 0.0 for s in samples):
+        per[samples[0]] = 1.0
+    for i in range(total):
+        if gdim == 1:
+            values[i] = per[i] if mode != "wei_grad_bootstrap" or rng.chance(0.5) else -per[i]
+        elif per[i] != 0.0:
+            for g in range(gdim):
+                values[i * gdim + g] = rng.uniform(-3.0, 3.0) if rng.chance(0.7) else 0.0
+            if all(values[i * gdim + g] == 0.0 for g in range(gdim)):
+                values[i * gdim] = 1.0
+    return f"split gboost {mode} {lst(samples)} {rng.range(0, 1024)} {f2h(ratio)} {calls} {total} {gdim} {lst(values, f2h)}"
+
+
+def ball_op(rng, dim=None):
+    n = dim if dim is not None else rng.range(1, 50)
+    radius = 10.0 ** rng.uniform(-6.0, 6.0)
+    if rng.chance(0.15):
+        radius = rng.choice([1e-6, 1e6, 1.0])
+    scale = rng.choice([0.0, radius, radius * 1e3, 1.0, 1e3])
+    x0 = [rng.uniform(-1.0, 1.0) * scale for _ in range(n)]
+    return f"split ball {lst(x0, f2h)} {f2h(radius)} {rng.range(0, 1 << 31)}"
+
+
+def gen(rng, tier):
+    thorough = tier == "thorough"
+    ops = []
+    cp = os.path.join(vlib.VERIF, "corpus", "C12", "ops.txt")
+    if os.path.exists(cp):
+        ops += [l.strip() for l in open(cp) if l.strip() and not l.startswith("#")]
+
+    # -- exhaustive small: k-fold ---------------------------------------------------------------------------
+    cells = [(n, k) for n in range(2, 41) for k in range(2, min(n, 12) + 1)]
+    full_cells = set(rng.shuffle(cells)[:6]) | {(25, 5), (7, 3), (40, 12)} if thorough else set()
+    per_cell = 48 if thorough else 16
+    cursor = rng.below(1025)
+    for (n, k) in cells:
+        samples = make_samples(rng, n)
+        if (n, k) in full_cells:
+            seeds = range(1025)
+        else:
+            # stratified: consecutive blocks of the seed domain, so that every seed 0..1024 is used in several cells
+            seeds = list(FIXED_SEEDS)
+            for _ in range(per_cell):
+                seeds.append(cursor % 1025)
+                cursor += 1
+        for s in seeds:
+            ops.append(kfold_op(samples, k, s))
+    # more folds than samples (chunk = 0: every sample is validated in the last fold), folds at the domain bounds
+    for n, k in [(1, 2), (2, 3), (3, 5), (5, 100), (2, 100), (40, 41), (0, 2), (99, 100), (100, 100), (101, 100)]:
+        ops.append(kfold_op(make_samples(rng, n), k, rng.choice(FIXED_SEEDS)))
+
+    # -- exhaustive small: random splitter --------------------------------------------------------------------
+    si = rng.below(5)
+    for (n, k) in cells:
+        for tp in range(10, 91, 10):
+            samples = make_samples(rng, n)
+            seeds = [FIXED_SEEDS[si % 5]] + [rng.range(0, 1024) for _ in range(3 if thorough else 0)]
+            si += 1
+            for s in seeds:
+                ops.append(random_op(samples, k, s, tp))
+    for n, k, tp in [(1, 2, 90), (1, 2, 10), (2, 2, 25), (3, 2, 50), (0, 2, 80), (4, 100, 37), (25, 3, 90), (21, 3, 80)]:
+        ops.append(random_op(make_samples(rng, n), k, rng.choice(FIXED_SEEDS), tp))
+    for n in range(1, 41):  # every admissible percentage, not only the multiples of ten
+        for tp in ([rng.range(10, 90) for _ in range(4)] if not thorough else range(10, 91)):
+            ops.append(random_op(make_samples(rng, n), 2, rng.range(0, 1024), tp))
+
+    # -- parameters outside their domains (the setter must refuse them) -------------------------------------
+    for k, s in [(1, 0), (0, 0), (101, 0), (2, 1025), (5, 4096)]:
+        ops.append(kfold_op(make_samples(rng, 6), k, s))
+        ops.append(random_op(make_samples(rng, 6), k, s, 80))
+    for tp in [9, 91, 100, 0]:
+        ops.append(random_op(make_samples(rng, 6), 2, 42, tp))
+
+    # -- random larger ----------------------------------------------------------------------------------------
+    for _ in range(60 if thorough else 8):
+        n = rng.choice([rng.range(41, 300), rng.range(300, 5000), 5000, 4999, 1000])
+        k = rng.choice([2, 3, 5, 10, rng.range(2, 100), 100])
+        ops.append(kfold_op(make_samples(rng, n), k, rng.range(0, 1024)))
+        k = rng.choice([2, 3, 5, rng.range(2, 10)])
+        ops.append(random_op(make_samples(rng, n), k, rng.range(0, 1024), rng.range(10, 90)))
+
+    # -- samplers -----------------------------------------------------------------------------------------------
+    reps = 6 if thorough else 2
+    for n in range(0, 17):
+        for count in range(0, n + 1):
+            for _ in range(reps):
+                ops.append(f"split without {lst(make_samples(rng, n))} {count} {rng.range(0, 1 << 20)}")
+    for n in range(1, 17):
+        for count in list(range(0, n + 1)) + [n + 1, 2 * n + 3]:
+            for _ in range(reps):
+                ops.append(f"split with {lst(make_samples(rng, n))} {count} {rng.range(0, 1 << 20)}")
+                w = weights_with_zeros(rng, n)
+                ops.append(f"split wwith {lst(make_samples(rng, n))} {lst(w, f2h)} {count} {rng.range(0, 1 << 20)}")
+    for _ in range(40 if thorough else 6):
+        n = rng.choice([rng.range(17, 200), rng.range(200, 5000), 5000])
+        samples = make_samples(rng, n)
+        ops.append(f"split without {lst(samples)} {rng.choice([0, n, n - 1, rng.range(0, n)])} {rng.range(0, 1 << 20)}")
+        ops.append(f"split with {lst(samples)} {rng.choice([0, n, 2 * n, rng.range(0, n)])} {rng.range(0, 1 << 20)}")
+        w = weights_with_zeros(rng, n)
+        ops.append(f"split wwith {lst(samples)} {lst(w, f2h)} {rng.choice([n, rng.range(0, 2 * n)])} {rng.range(0, 1 << 20)}")
+    # a single positive weight: every draw must hit it
+    for n in range(1, 12):
+        w = [0.0] * n
+        w[rng.below(n)] = rng.choice([1.0, 1e-300, 3.5])
+        ops.append(f"split wwith {lst(make_samples(rng, n))} {lst(w, f2h)} {n + 2} {rng.range(0, 1 << 20)}")
+
+    # -- gboost sampler -------------------------------------------------------------------------------------------
+    for mode in MODES:
+        for n in list(range(1, 21)) + ([rng.range(21, 400) for _ in range(10)] if thorough else [rng.range(21, 400)]):
+            for ratio in [1.0, 0.5, 0.1, rng.uniform(0.01, 1.0), rng.choice([0.3, 0.7, 0.9, 0.29, 0.57, 1.0 / 3.0])]:
+                ops.append(gboost_op(rng, mode, n, ratio, rng.range(1, 3)))
+
+    # -- ball -----------------------------------------------------------------------------------------------------
+    for d in range(1, 51):
+        ops.append(ball_op(rng, d))
+    for _ in range(1000 if thorough else 50):
+        ops.append(ball_op(rng))
+    return ops
+
+
+# ---------------------------------------------------------------------------------------------------------
+# bookkeeping of the evidence
+
+def _head(op):
+    t = Toks(op); t.s(); o = t.s()
+    return t, o
+
+
+def nontrivial(op):
+    t, o = _head(op)
+    if o == "kfold":
+        s = t.ints(); k = t.int()
+        return k >= 2 and len(s) % k != 0
+    if o == "random":
+        s = t.ints(); t.int(); t.int(); tp = t.int()
+        return (tp * len(s)) % 100 != 0
+    if o in ("without", "with"):
+        t.ints(); return t.int() > 0
+    if o == "wwith":
+        t.ints(); t.fs(); return t.int() > 0
+    if o == "gboost":
+        return t.s() != "off"
+    return True
+
+
+def distribution(ops):
+    d = {}
+    for op in ops:
+        t, o = _head(op)
+        key = o
+        if o == "gboost":
+            key = "gboost/" + t.s()
+        elif o in ("kfold", "random"):
+            n = t.int()
+            key = f"{o}/n<=40" if n <= 40 else f"{o}/n>40"
+        d[key] = d.get(key, 0) + 1
+        if nontrivial(op):
+            d[key + "/nontrivial"] = d.get(key + "/nontrivial", 0) + 1
+    return d
+
+
+# ---------------------------------------------------------------------------------------------------------
+# property oracle: the set structure promised by the property, evaluated directly on the implementation's answer
+
+def _strictly_sorted(xs):
+    return all(a < b for a, b in zip(xs, xs[1:]))
+
+
+def _sorted(xs):
+    return all(a <= b for a, b in zip(xs, xs[1:]))
+
+
+def _in_domain(folds, seed, tp=None):
+    d = domains()
+    ok = d["folds"][0] <= folds <= d["folds"][2] and d["seed"][0] <= seed <= d["seed"][2]
+    if tp is not None:
+        ok = ok and d["trainPer"][0] <= tp <= d["trainPer"][2]
+    return ok
+
+
+_DOM = None
+
+
+def _pair_check(samples, sset, train, valid):
+    if not _strictly_sorted(train):
+        return "train-unsorted: training part not strictly increasing"
+    if not _strictly_sorted(valid):
+        return "valid-unsorted: validation part not strictly increasing"
+    ts, vs = set(train), set(valid)
+    if ts & vs:
+        return f"leak: training and validation share {sorted(ts & vs)[:5]}"
+    if (ts | vs) != sset or len(train) + len(valid) != len(samples):
+        return "cover: training + validation is not exactly the input set"
+    return None
+
+
+def _round_half_up(num, den):
+    """round(num/den) with halves up, exactly"""
+    return math.floor(Fraction(num, den) + Fraction(1, 2))
+
+
+def oracle(op, res):
+    t, o = _head(op)
+    r = Toks(res)
+    status = r.s()
+    if o in ("kfold", "random"):
+        samples = t.ints(); folds = t.int(); seed = t.int()
+        tp = t.int() if o == "random" else None
+        if not _in_domain(folds, seed, tp):
+            return None if res == "throw critical" else f"domain: parameters outside their domain were accepted: {res[:60]}"
+        if status != "ok":
+            return f"answer: implementation did not answer ok: {res[:80]}"
+        if len(set(samples)) != len(samples):
+            return None  # the property speaks about distinct indices only
+        same = r.int(); nf = r.int()
+        if nf != folds:
+            return f"folds: {nf} splits returned for {folds} folds"
+        n = len(samples); sset = set(samples)
+        pairs = []
+        for _ in range(nf):
+            train = r.ints(); valid = r.ints()
+            pairs.append((train, valid))
+        if not r.done():
+            return "answer: trailing output"
+        for f, (train, valid) in enumerate(pairs):
+            why = _pair_check(samples, sset, train, valid)
+            if why:
+                return f"{why} (fold {f})"
+        if same != 1:
+            return "determinism: equal seeds gave different splits"
+        if o == "kfold":
+            seen = set(); total = 0
+            for f, (_, valid) in enumerate(pairs):
+                if seen & set(valid):
+                    return f"valid-overlap: validation folds overlap at fold {f}"
+                seen |= set(valid); total += len(valid)
+            if seen != sset or total != n:
+                return "valid-cover: the validation folds do not cover the input exactly once"
+            sizes = [len(v) for _, v in pairs]
+            chunk = n // folds
+            want = [chunk] * (folds - 1) + [n - (folds - 1) * chunk]
+            if sizes != want:
+                return f"valid-sizes: validation sizes {sizes[:14]} expected {want[:14]}"
+            if max(sizes) - min(sizes) >= folds or max(sizes) - min(sizes) != n % folds:
+                return f"valid-sizes: sizes differ by {max(sizes) - min(sizes)}, n mod folds = {n % folds}"
+        else:
+            want = _round_half_up(tp * n, 100)
+            for f, (train, valid) in enumerate(pairs):
+                if len(train) != want or len(valid) != n - want:
+                    return f"train-size: {len(train)} training samples, round({tp}*{n}/100) = {want} (fold {f})"
+        return None
+
+    if status != "ok":
+        return f"answer: implementation did not answer ok: {res[:80]}"
+
+    if o in ("without", "with", "wwith"):
+        samples = t.ints()
+        weights = t.fs() if o == "wwith" else None
+        count = t.int()
+        sel = r.ints()
+        if len(sel) != count:
+            return f"count: {len(sel)} indices returned, {count} asked"
+        sset = set(samples)
+        if not set(sel) <= sset:
+            return "member: an index that is not in the input was returned"
+        if o == "without":
+            if not _strictly_sorted(sel):
+                return "distinct-sorted: result not strictly increasing (unsorted or repeated)"
+        elif not _sorted(sel):
+            return "sorted: result not sorted"
+        if o == "wwith":
+            zero = {s for s, w in zip(samples, weights) if not (w > 0.0)}
+            bad = sorted(set(sel) & zero)
+            if bad:
+                return f"zero-weight: indices of zero weight returned: {bad[:5]}"
+        return None
+
+    if o == "gboost":
+        mode = t.s(); samples = t.ints(); t.int(); ratio = t.f(); calls = t.int(); total = t.int(); gdim = t.int()
+        values = t.fs()
+        n = len(samples); sset = set(samples)
+        count = int(ratio * float(n))
+        if r.int() != calls:
+            return "calls: wrong number of answers"
+        for c in range(calls):
+            sel = r.ints()
+            if mode == "off":
+                if sel != samples:
+                    return "off: the samples were not returned unchanged"
+                continue
+            if len(sel) != count:
+                return f"count: {len(sel)} indices returned, trunc({ratio}*{n}) = {count}"
+            if not set(sel) <= sset:
+                return "member: an index that is not in the input was returned"
+            if mode == "subsample":
+                if not _strictly_sorted(sel):
+                    return "distinct-sorted: result not strictly increasing"
+            elif not _sorted(sel):
+                return "sorted: result not sorted"
+            if mode in ("wei_loss_bootstrap", "wei_grad_bootstrap"):
+                zero = {s for s in samples if all(values[s * gdim + g] == 0.0 for g in range(gdim))}
+                bad = sorted(set(sel) & zero)
+                if bad:
+                    return f"zero-weight: indices of zero weight returned: {bad[:5]}"
+        return None
+
+    if o == "ball":
+        x0 = t.fs(); radius = t.f()
+        x = r.fs()
+        if len(x) != len(x0):
+            return "dimension: wrong dimension"
+        if not all(math.isfinite(v) for v in x):
+            return "finite: non-finite coordinate"
+        d2 = sum((Fraction(a) - Fraction(b)) ** 2 for a, b in zip(x, x0))
+        # the coordinates are rounded to binary64: half an ulp per coordinate is the representation limit of x0 + d
+        slack2 = sum(Fraction(math.ulp(a)) ** 2 for a in x) / 4
+        bound = Fraction(radius) * (1 + Fraction(BALL_RTOL))
+        dist = math.sqrt(float(d2))
+        if d2 <= bound * bound:
+            return None
+        lim = float(bound) + math.sqrt(float(slack2))
+        if dist <= lim:
+            return None
+        return f"outside: |x - x0| = {dist!r} > radius {radius!r}"
+    return f"answer: unknown op {o}"
+
+
+def compare(aug, impl, model):
+    _, o = _head(aug)
+    if o == "ball":
+        return vlib.compare_lines(impl, model, BALL_RTOL, 0.0)
+    return impl == model
+
+
+def classify(op, kind, detail):
+    try:
+        t, o = _head(op)
+        if o == "gboost":
+            o = "gboost-" + t.s()
+    except Exception:
+        return None
+    if kind == "oracle":
+        return f"{o}:{detail.split(':')[0]}"
+    return f"{o}:{kind}"
+
+
+def shrink_candidates(op):
+    t, o = _head(op)
+    out = []
+    if o in ("kfold", "random"):
+        s = t.ints(); rest = t.rest()
+        k = int(rest[0])
+        for s2 in (s[: len(s) // 2], s[:-1], sorted(s), list(range(len(s)))):
+            if s2 != s and len(s2) >= 1:
+                out.append(f"split {o} {lst(s2)} " + " ".join(rest))
+        if k > 2:
+            out.append(f"split {o} {lst(s)} " + " ".join([str(k - 1)] + rest[1:]))
+            out.append(f"split {o} {lst(s)} " + " ".join(["2"] + rest[1:]))
+        if rest[1] != "0":
+            out.append(f"split {o} {lst(s)} " + " ".join([rest[0], "0"] + rest[2:]))
+    elif o in ("without", "with"):
+        s = t.ints(); c = t.int(); seed = t.s()
+        if len(s) > 1:
+            out.append(f"split {o} {lst(s[:-1])} {min(c, len(s) - 1) if o == 'without' else c} {seed}")
+        if c > 0:
+            out.append(f"split {o} {lst(s)} {c - 1} {seed}")
+            out.append(f"split {o} {lst(s)} {c // 2} {seed}")
+        if s != list(range(len(s))):
+            out.append(f"split {o} {lst(list(range(len(s))))} {c} {seed}")
+    return out
+
+
+def static_checks():
+    """the model must use the translated idiv, and random.cpp must still compute the train size through idiv"""
+    bad = []
+    model = open(os.path.join(vlib.LEAN, "NanoVerif", "Model", "Split.lean")).read()
+    if "Gen.idiv" not in vlib.strip_lean_comments(model):
+        bad.append("Model/Split.lean no longer uses Gen.idiv")
+    src = open(RANDOM_CPP).read()
+    if not re.search(r"train_size\s*=\s*idiv\(\s*train_perc\s*\*\s*samples\.size\(\)\s*,\s*100\s*\)", src):
+        bad.append("src/splitter/random.cpp: train_size is no longer idiv(train_perc * samples.size(), 100)")
+    return bad
